@@ -1269,6 +1269,13 @@ func readMultipartForm(r io.Reader, boundary string, size, maxInMemoryFileSize i
 	if err != nil {
 		return nil, fmt.Errorf("cannot read multipart/form-data body: %w", err)
 	}
+	// The closing boundary may be followed by an epilogue that still belongs
+	// to the body of the declared size. Consume it, so it isn't taken for
+	// the beginning of the next message.
+	if _, err = io.Copy(io.Discard, lr); err != nil {
+		_ = f.RemoveAll()
+		return nil, fmt.Errorf("cannot read multipart/form-data body: %w", err)
+	}
 	return f, nil
 }
 
